@@ -55,7 +55,7 @@ class Machine:
     def outcome(self, s, ev):
         return (ev[0], len(s.ref))
 
-    def step(self, s, ev):
+    def step(self, s, ev, light=False):
         bm, ref = s.bm, s.ref
         op, args = ev[0], [_u(a) for a in ev[1:]]
         fails = []
@@ -103,7 +103,8 @@ class Machine:
                 )
             )
         s.ref = new
-        fails += self.compare(s, f"after:{op}")
+        if not light:
+            fails += self.compare(s, f"after:{op}")
         return fails
 
     def compare(self, s, ctx):
